@@ -214,6 +214,44 @@ theorem last_writer_wins (lines cols g1 g2 : Int) (hl : 0 ≤ lines) (hc : 0 < c
     absContent (RB.run (RB.new lines cols g1 g2) prog) L C = (RBAbs.run (AState.new lines cols) prog).content L C :=
   ((refinement_new lines cols g1 g2 hl hc prog safe).content L C).symm
 
+/-- **Last writer wins, as a statement about histories.**  Split any program as `pre ++ o :: post`.  If no
+    operation of `post` writes the cell `(L, C)` — i.e. covers it, in the coordinates shifted by the translation
+    then in force, while it is inside the clip and unmasked (`Writes`, `opCovers`) — then after the whole program
+    the real buffer's cell holds exactly what `o` left in it (by `erase_cellwise`, `text_cellwise`, `paint`:
+    `o`'s own content with the pen of that moment if `o` wrote it). -/
+theorem last_writer_wins_trace (lines cols g1 g2 : Int) (hl : 0 ≤ lines) (hc : 0 < cols) (pre post : List Op) (o : Op)
+    (safe : ProgSafe (AState.new lines cols) (pre ++ o :: post)) (L C : Int)
+    (hnw : NeverWritten (RBAbs.step (RBAbs.run (AState.new lines cols) pre) o) post L C) :
+    absContent (RB.run (RB.new lines cols g1 g2) (pre ++ o :: post)) L C =
+      (RBAbs.step (RBAbs.run (AState.new lines cols) pre) o).content L C := by
+  rw [last_writer_wins lines cols g1 g2 hl hc _ safe L C, absrun_append]
+  exact neverWritten_unchanged post _ L C hnw
+
+/-- **Cells never covered stay skipped**: if no operation of a program writes the cell, the real buffer's cell
+    is still `skip` (in particular every cell outside the buffer, outside every clip, or always masked). -/
+theorem never_written_stays_skip (lines cols g1 g2 : Int) (hl : 0 ≤ lines) (hc : 0 < cols) (prog : List Op)
+    (safe : ProgSafe (AState.new lines cols) prog) (L C : Int) (hnw : NeverWritten (AState.new lines cols) prog L C) :
+    absContent (RB.run (RB.new lines cols g1 g2) prog) L C = .skip := by
+  rw [last_writer_wins lines cols g1 g2 hl hc _ safe L C]
+  exact neverWritten_unchanged prog _ L C hnw
+
+/-- An operation changes no cell it does not write (specification level; with `last_writer_wins` this is a
+    fact about the real cells). -/
+theorem unwritten_unchanged (a : AState) (o : Op) (L C : Int) (h : ¬ Writes a o L C) :
+    (RBAbs.step a o).content L C = a.content L C := not_writes_unchanged a o L C h
+
+/-- Non-vacuity: a text cut in the middle by an erase — the right-hand remainder still shows *its* column
+    of the string (`D` is column 3), the cut cells show the erase, and a cell never covered is `skip`. -/
+example :
+    let rb := RB.run (RB.new 1 6 0 0) [.textAt 0 0 [65, 66, 67, 68], .eraseAt 0 1 2]
+    absContent rb 0 3 = .text Pen.empty [65, 66, 67, 68] 3 ∧ absContent rb 0 1 = .erase Pen.empty ∧
+    absContent rb 0 0 = .text Pen.empty [65, 66, 67, 68] 0 ∧ absContent rb 0 5 = .skip := by
+  decide +kernel
+
+/-- Non-vacuity of `ProgSafe`: a program with a `save`/`restore` pair that leaves the cursor alone is safe. -/
+example : ProgSafe (AState.new 1 6) [.eraseAt 0 0 3, .save, .eraseAt 0 1 2, .restore] := by
+  simp [ProgSafe, OpSafe, RestoreSafe, RBAbs.step, RBAbs.save, RBAbs.eraseAt, RBAbs.paint, AState.new]
+
 /-- The single-step form, from any well-formed buffer: an absolute erase writes exactly the covered, clipped,
     unmasked cells and leaves the rest of the grid as it was. -/
 theorem erase_cellwise (rb : RB) (wf : WF rb) (l c n : Int) (L C : Int) :
@@ -359,5 +397,41 @@ example (rb : RB) (wf : WF rb) :
     simp
   have := save_restore rb [] wf rfl safe
   exact ⟨this.1, this.2.2.2.2.2.1⟩
+
+/-! ### facts regenerated from the C source on every run (`bin/extract.d/25_rbwidth.py` → `Gen/RBWidth.lean`) -/
+
+open Tickit.Gen.RBWidth in
+/-- The model's cell states carry the values of `enum TickitRenderBufferCellState`. -/
+theorem gen_cell_states :
+    CState.toNat .skip = c_SKIP ∧ CState.toNat .text = c_TEXT ∧ CState.toNat .erase = c_ERASE ∧
+    CState.toNat .cont = c_CONT ∧ CState.toNat .line = c_LINE ∧ CState.toNat .char = c_CHAR := by decide
+
+open Tickit.Gen.RBWidth in
+/-- The four directions of a line mask are disjoint two-bit fields inside one byte (so OR-accumulation of one
+    direction never disturbs another), the line styles fit in two bits, and the caps are two distinct bits. -/
+theorem gen_linemask_layout :
+    [c_NORTH_SHIFT, c_EAST_SHIFT, c_SOUTH_SHIFT, c_WEST_SHIFT].Pairwise (fun x y => x + 2 ≤ y ∨ y + 2 ≤ x) ∧
+    (∀ s ∈ [c_NORTH_SHIFT, c_EAST_SHIFT, c_SOUTH_SHIFT, c_WEST_SHIFT], s + 2 ≤ 8) ∧
+    c_TICKIT_LINE_SINGLE < 4 ∧ c_TICKIT_LINE_DOUBLE < 4 ∧ c_TICKIT_LINE_THICK < 4 ∧
+    c_TICKIT_LINECAP_START &&& c_TICKIT_LINECAP_END = 0 ∧ c_TICKIT_LINECAP_START ≠ 0 ∧ c_TICKIT_LINECAP_END ≠ 0 ∧
+    linemaskToChar.size = 256 := by decide +kernel
+
+/-- A table `bisearch` may be used on: intervals well-formed, strictly increasing, not touching. -/
+def sortedIntervals (t : Array (Nat × Nat)) : Bool :=
+  (List.range t.size).all fun i =>
+    decide ((t.getD i (0, 0)).1 ≤ (t.getD i (0, 0)).2) &&
+    (decide (i + 1 ≥ t.size) || decide ((t.getD i (0, 0)).2 < (t.getD (i + 1) (0, 0)).1))
+
+open Tickit.Gen.RBWidth in
+/-- The two width tables of the working tree are sorted and non-overlapping (the precondition of the binary
+    search the width lookup uses), and not empty. -/
+theorem gen_width_tables_sorted :
+    sortedIntervals combining = true ∧ sortedIntervals fullwidth = true ∧ 0 < combining.size ∧ 0 < fullwidth.size := by
+  decide +kernel
+
+/-- Widths of the characters the generator uses most: ASCII 1, combining acute 0, fullwidth A 2, CJK 2,
+    an emoji from `fullwidth.inc` 2 (a test of the tables above, not a theorem about all of Unicode). -/
+example : Utf8.wcwidth 0x41 = 1 ∧ Utf8.wcwidth 0x301 = 0 ∧ Utf8.wcwidth 0xff21 = 2 ∧ Utf8.wcwidth 0x4e00 = 2 ∧
+    Utf8.wcwidth 0x1f600 = 2 := by decide +kernel
 
 end Tickit.Props.C03
